@@ -22,6 +22,9 @@ const (
 	// fd_filestat_set_times on a descriptor that has no file system behind it (stdio, sockets):
 	// File.Utimens answers ENOSYS and the path-based fallback calls a method on the nil FileEntry.FS.
 	idSetTimesNilFS = "C15-filestat-set-times-nil-fs"
+	// sock_recv with RI_RECV_PEEK and an EMPTY iovec list (ri_data_len = 0) still interprets the 8
+	// bytes at ri_data as an iovec and stores the peeked data through it.
+	idRecvPeekNoIovec = "C15-sock-recv-peek-no-iovec"
 )
 
 // pollWrapMin is the smallest nsubscriptions whose product with the subscription size (48)
@@ -46,6 +49,8 @@ func knownInputs() map[string]*Case {
 		idPollWrap: {Engine: "interpreter", Pages: 1, Fn: "poll_oneoff", Args: []uint64{0x100, 0x1000, 1 << 28, 0x10}},
 		idRenumberSelf: {Engine: "interpreter", Pages: 1, State: openF0(), Fn: "fd_renumber", Args: []uint64{5, 5}},
 		idSetTimesNilFS: {Engine: "interpreter", Pages: 1, Fn: "fd_filestat_set_times", Args: []uint64{0, 0, 0, 0}},
+		idRecvPeekNoIovec: {Engine: "interpreter", Pages: 1, Sock: true, State: []StateOp{{Op: "accept"}},
+			Mem: []Piece{{Off: 280, Hex: "0001000010000000"}}, Fn: "sock_recv", Args: []uint64{6, 280, 0, 1, 296, 312}},
 		idRenumberHuge: {Engine: "interpreter", Pages: 1, State: openF0(), Fn: "fd_renumber", Args: []uint64{5, 1 << 30}},
 	}
 }
@@ -54,17 +59,17 @@ func knownClasses(t *testing.T) {
 	knownOnce.Do(func() {
 		shard, _ := evid.Shard()
 		in := knownInputs()
-		for _, id := range []string{idPollWrap, idRenumberSelf, idSetTimesNilFS, idRenumberHuge} {
+		for _, id := range []string{idPollWrap, idRenumberSelf, idSetTimesNilFS, idRecvPeekNoIovec, idRenumberHuge} {
 			c := in[id]
 			if id == idRenumberHuge && shard != 0 {
 				// other shards only need to know whether the class is live: a 128 MiB table shows it
 				c = &Case{Engine: "interpreter", Pages: 1, State: openF0(), Fn: "fd_renumber", Args: []uint64{5, 1 << 24}}
 			}
-			old := debug.SetGCPercent(-1) // do not let a collection scan a multi-GiB table while it is live
+			// automatic collection is off (TestMain): a multi-GiB table is never scanned while live
 			evid.Journal(c)
 			r, err := execute(c)
 			runtime.GC()
-			debug.SetGCPercent(old)
+			debug.FreeOSMemory()
 			if err != nil {
 				evid.Incomplete("known-finding input %s could not run: %v", id, err)
 				continue
@@ -110,6 +115,11 @@ func applyExclusions(c *Case, info map[int32]fdInfo) {
 			evid.Label("excluded-"+idPollWrap, 1)
 			c.Args[2] = pollWrapMin - 1 // the largest count whose size still fits 32 bits
 		}
+	case "sock_recv":
+		if fl := uint8(c.Args[3]); liveClass[idRecvPeekNoIovec] && uint32(c.Args[2]) == 0 && fl&1 != 0 && fl&^3 == 0 {
+			evid.Label("excluded-"+idRecvPeekNoIovec, 1)
+			c.Args[2] = 1
+		}
 	case "fd_filestat_set_times":
 		fd, fl := int32(uint32(c.Args[0])), uint16(c.Args[3])
 		in, ok := info[fd]
@@ -142,6 +152,10 @@ func applyExclusions(c *Case, info map[int32]fdInfo) {
 // classOfCase names the known class a failing replayed case belongs to (by its arguments).
 func classOfCase(c *Case, msg string) string {
 	switch c.Fn {
+	case "sock_recv":
+		if len(c.Args) == 6 && uint32(c.Args[2]) == 0 && uint8(c.Args[3])&1 != 0 {
+			return idRecvPeekNoIovec
+		}
 	case "fd_filestat_set_times":
 		if strings.Contains(msg, "nil pointer dereference") {
 			return idSetTimesNilFS
